@@ -133,7 +133,7 @@ def sym_lookup(known_sym: dict, c: str):
         return c
     import fnmatch
     for pat in known_sym:
-        if "*" in pat and fnmatch.fnmatchcase(c, pat):
+        if any(ch in pat for ch in "*?[") and fnmatch.fnmatchcase(c, pat):
             return pat
     return None
 
@@ -147,7 +147,11 @@ def cause_ok(kf: dict, code: str, ast_txt: str, flags: int) -> bool:
     for c in causes:
         if c == "dead-arm" and flags >= 0 and (flags >> 18) & 1:          # the model removed a declaration with a dead ?: arm
             return True
-        if c == "const-cond" and re.search(r"\(ECond \((EOp \(ONum|ECast \[[^\]]*\] \(EOp \(ONum|EBin \w+ \(EOp \(ONum[^()]*\)\) \(EOp \(ONum)", ast_txt):
+        if c == "const-cond":
+            num = r'\(EOp \(ONum \(-?\d+\) \w+ "[^"]*"\)\)'
+            if re.search(r"\(ECond (" + num + r"|\(ECast \[[^\]]*\] " + num + r"\)|\(E(Bin|Un) \w+ " + num + ")", ast_txt):
+                return True
+        if c == "discarded-value" and re.search(r"\(SExpr \((EBin|ELoad|ECast|EUn|EOp|ECond|EMacro) ", ast_txt):
             return True
         if c == "sizeof" and ("USizeofE" in ast_txt or "ECall \"sizeof\"" in ast_txt):
             return True
@@ -316,7 +320,17 @@ def run(spec: Spec, tier: str) -> int:
                 keep.append((jid, code, of, v))
         fails[:] = keep
     # symptom classes: a wf / linear failure whose symptoms are all listed (known_findings 'symptom') is a known finding
-    known_sym = {k["symptom"]: k for k in known if "symptom" in k}
+    known_syml = [k for k in known if "symptom" in k]
+    known_sym = {k["id"]: k for k in known_syml}
+
+    def find_known(c, code, ast_txt, flags):
+        """the listed finding (id) whose symptom (exact or pattern) matches c and whose recorded cause is present, else None"""
+        import fnmatch
+        for k in known_syml:
+            pat = k["symptom"]
+            if (pat == c or (any(ch in pat for ch in "*?[") and fnmatch.fnmatchcase(c, pat))) and cause_ok(k, code, ast_txt, flags):
+                return k["id"]
+        return None
     if known_sym and fails:
         items = [(jid, k2r.bodies[jid]) for jid, _, of, _ in fails if jid in k2r.bodies and any(o in ("wf", "linear") for o in of)]
         offs = {}
@@ -336,8 +350,8 @@ def run(spec: Spec, tier: str) -> int:
                 elif o not in ("wf", "linear"):
                     classes.add("other:" + o)
             ast_txt = (k2r.results.get(jid) or {}).get("ast") or ""
-            matched = {c: sym_lookup(known_sym, c) for c in classes}
-            if classes and all(matched[c] is not None and cause_ok(known_sym[matched[c]], code, ast_txt, v.get("flags", 0)) for c in classes):
+            matched = {c: find_known(c, code, ast_txt, v.get("flags", 0)) for c in classes}
+            if classes and all(matched[c] is not None for c in classes):
                 for c in classes:
                     seen_sym.setdefault(matched[c], code)
             else:
@@ -347,7 +361,7 @@ def run(spec: Spec, tier: str) -> int:
         fails[:] = keep
         for c, code in seen_sym.items():
             kf = known_sym[c]
-            res.known(f"{kf['id']}: {kf['what']} -- symptom {c}, e.g. {kf['witness'].get('code', code)}")
+            res.known(f"{kf['id']}: {kf['what']} -- symptom {kf['symptom']}, e.g. {kf['witness'].get('code', code)}")
         stats["known_symptom_classes_seen"] = sorted(seen_sym)
     # known findings: still failing?
     for code, kf in known_codes.items():
